@@ -692,6 +692,25 @@ def r6_fixpoint(ctx):
                 st.value, ast.Constant) and isinstance(
                 st.value.value, int) and st.value.value > 0:
             moved = st.target.id
+    if moved is None:
+        # `flag |= <the move condition>` next to the conditional move
+        ifs_ = blk
+        while ifs_ is not None and not isinstance(ifs_, ast.If):
+            ifs_ = getattr(ifs_, "_parent", None)
+        outer_ = getattr(ifs_, "_parent", None) if ifs_ is not None else None
+        for fld in ("body", "orelse"):
+            for st in getattr(outer_, fld, []) or []:
+                if isinstance(st, ast.AugAssign) and isinstance(
+                        st.op, ast.BitOr) and isinstance(
+                        st.target, ast.Name) and ifs_ is not None and norm(
+                        st.value) == norm(ifs_.test):
+                    moved = st.target.id
+                if isinstance(st, ast.Assign) and isinstance(
+                        st.targets[0], ast.Name) and ifs_ is not None and \
+                        norm(st.value) in (
+                            f"{norm(st.targets[0])} or {norm(ifs_.test)}",
+                            f"{norm(ifs_.test)} or {norm(st.targets[0])}"):
+                    moved = st.targets[0].id
     ctx.check(moved is not None, ins, "every move is recorded in a flag",
               "the repetition of the pass cannot notice that something "
               "moved")
